@@ -99,5 +99,77 @@ Proof.
   - rewrite Nat.sub_0_r. exact Hcalls.
 Qed.
 
+(* ---- the same reader, call by call (for the call-by-call container model lzr_read) -------------- *)
+(* [l1_rs data tail s k]: the LZMAReader state s has delivered the first k bytes of [data] (or is
+   behind the end marker), and [tail] follows the stream in the source *)
+Definition l1_rs (data tail : list Z) (s : lzma1) (k : nat) : Prop :=
+  zlen data <= U64_HALF /\
+  exists E W hist0 strict,
+    InvG E tail W data hist0 true strict k s \/ (k = length data /\ Lzma1LoopProofs.Ended tail s).
+
+Lemma l1_rs_new : forall d dd data syms stream tail,
+  4096 <= d -> d <= dd -> dd <= 2147483648 ->
+  bytes_ok data = true -> no_end syms ->
+  lzma1_write 3 0 2 d [] data syms false true None = Ok stream ->
+  (forall E c' h', enc_syms (coder_new 3 0 2) (ehist_new d [] data) (syms ++ end_syms true) = Ok (E, c', h') ->
+     events_bits E <= RC_MAX_BITS) ->
+  exists s0, lzma1_construct2 (stream ++ tail) U64_MAX 3 0 2 dd None = Ok s0 /\ l1_rs data tail s0 0.
+Proof.
+  intros d dd data syms stream tail Hd4 Hdd Hdd31 Hbd Hne Hw Hbits.
+  assert (Hdict : 4096 <= d <= 2147483648) by lia.
+  assert (Hlc : 0 <= 3 <= 8) by lia. assert (Hlp : 0 <= 0 <= 4) by lia. assert (Hpb : 0 <= 2 <= 4) by lia.
+  destruct (lzma1_write_inv _ _ _ _ _ _ _ _ _ _ _ Hw) as (E1 & c1 & h1 & E2 & cE & hE & Hsyms & Hall & Hend & Hfull & ->).
+  specialize (Hbits _ _ _ Hfull). cbn [app].
+  set (body := renc_bytes (renc_finish (fst (renc_events renc_init PLeaf (E1 ++ E2))))).
+  assert (Hok : forallb RangeEncProofs.ev_ok (E1 ++ E2) = true).
+  { rewrite forallb_ev_ok_same. eapply enc_syms_events_ok; [|exact Hfull]. cbn [ehist_new h_dict]. lia. }
+  destruct (rc_sim_init (E1 ++ E2) PLeaf tail probs_ok_empty Hok Hbits) as (d0 & Hinit & Hsim).
+  fold body in Hinit.
+  destruct (construct2_ok (body ++ tail) d0 U64_MAX 3 0 2 dd None Hlc Hlp Hpb ltac:(lia) Hinit ltac:(unfold U64_MAX; lia))
+    as (W & Hc2 & HWr & HW16 & HWd).
+  assert (HdW : d <= W).
+  { destruct HWd as [HWd|(Hh & _)]; [lia|]. unfold U64_MAX, U64_HALF in Hh. lia. }
+  eexists. split; [exact Hc2|].
+  destruct (lzwin_new_start W d None ltac:(lia) HW16 ltac:(cbn [preset_list]; change (zlen (@nil Z)) with 0; lia))
+    as (R0 & Hst0 & Hsz0 & Hpl0 & Hpd0).
+  cbn [preset_list] in R0.
+  destruct (stream_facts 3 0 2 d [] data syms true W E1 c1 h1 E2 Hdict eq_refl Hbd Hne ltac:(left; exact HdW) ltac:(lia)
+              Hsyms Hall Hend) as (sN & Hrun & Hfin & Hpos1).
+  assert (Hsmall : zlen data <= U64_HALF).
+  { pose proof (enc_syms_adv _ _ _ _ _ _ Hsyms) as Hadv. rewrite Hpos1 in Hadv. cbn [ehist_new h_pos] in Hadv.
+    rewrite events_bits_app in Hbits. pose proof (events_bits_nonneg E2).
+    unfold RC_MAX_BITS in Hbits. unfold U64_HALF. lia. }
+  split; [exact Hsmall|].
+  set (p := preset_kept d []) in *.
+  exists (E1 ++ E2), W, (rev p), false. left.
+  split; [lia|]. exists (rev p), [], (E1 ++ E2), sN, E2.
+  cbn [l_coder l_win l_rc l_probs l_end_reached l_remaining].
+  split; [reflexivity|]. split; [exact Hsim|]. split; [exact R0|]. split; [exact Hst0|].
+  split; [intros; discriminate|].
+  split; [exact Hsz0|]. split; [apply coder_new_ok; assumption|]. split; [intros; lia|].
+  split; [rewrite Nat.sub_0_r, Hsz0, Hpl0, Hpd0; exact Hrun|]. split; [exact Hfin|]. split; reflexivity.
+Qed.
+
+(* one read() with a non-empty destination: the next m bytes *)
+Lemma l1_rs_read : forall data tail s k sz, l1_rs data tail s k -> 0 < sz ->
+  exists m s', lzma1_read s sz = Ok (seg data k m, s') /\ (k + m <= length data)%nat /\
+    l1_rs data tail s' (k + m) /\
+    (m = 0%nat -> k = length data /\ lzma1_unconsumed s' = tail) /\ ((k < length data)%nat -> (0 < m)%nat).
+Proof.
+  intros data tail s k sz (Hsmall & E & W & hist0 & strict & HR) Hsz.
+  destruct HR as [HI | (-> & HE)].
+  - destruct (read_steps E tail W data hist0 true Hsmall strict k s sz HI Hsz) as (m & s' & Hrd & Hk & Hcase).
+    exists m, s'. split; [exact Hrd|]. split; [exact Hk|].
+    destruct Hcase as [(HE & HkN) | (HI' & Hm)].
+    + split; [split; [exact Hsmall|]; exists E, W, hist0, strict; right; split; [lia | exact HE]|].
+      split; [|intros; lia]. intros ->. split; [lia|]. destruct HE as (_ & Hin). exact Hin.
+    + split; [split; [exact Hsmall|]; exists E, W, hist0, true; left; exact HI'|].
+      split; [intros ->; lia | intros; lia].
+  - exists 0%nat, s. destruct HE as (He & Hin). rewrite (read_ended s sz He), seg_nil, Nat.add_0_r.
+    split; [reflexivity|]. split; [lia|].
+    split; [split; [exact Hsmall|]; exists E, W, hist0, strict; right; split; [reflexivity | split; assumption]|].
+    split; [intros _; split; [reflexivity | exact Hin] | intros; lia].
+Qed.
+
 Print Assumptions lzip_payload_dec_n_rt.
 
